@@ -98,6 +98,78 @@ def _minima(f2, lo=0.0, hi=1.0, n=200):
     return out
 
 
+def _poly_roots_in(coef, lo, hi):
+    """real roots in (lo, hi) of a polynomial of degree <= 3 given by ascending coefficients: monotone pieces + bisection"""
+    c = list(coef) + [0.0] * (4 - len(coef))
+
+    def p(t):
+        return ((c[3] * t + c[2]) * t + c[1]) * t + c[0]
+    # critical points of p: roots of 3 c3 t^2 + 2 c2 t + c1
+    cuts = [lo, hi]
+    qa, qb, qc = 3 * c[3], 2 * c[2], c[1]
+    if qa != 0:
+        disc = qb * qb - 4 * qa * qc
+        if disc >= 0:
+            r = math.sqrt(disc)
+            q = -0.5 * (qb + (r if qb >= 0 else -r))
+            for t in ([q / qa] + ([qc / q] if q != 0 else [])):
+                if lo < t < hi:
+                    cuts.append(t)
+    elif qb != 0:
+        t = -qc / qb
+        if lo < t < hi:
+            cuts.append(t)
+    cuts = sorted(set(cuts))
+    out = []
+    for a_, b_ in zip(cuts, cuts[1:]):
+        fa, fb = p(a_), p(b_)
+        if fa == 0:
+            out.append(a_)
+        if fa * fb < 0:
+            x, y = a_, b_
+            for _ in range(200):
+                m = (x + y) / 2
+                fm = p(m)
+                if fm == 0 or m == x or m == y:
+                    break
+                if (fm < 0) == (fa < 0):
+                    x = m
+                else:
+                    y = m
+            out.append((x + y) / 2)
+    return [t for t in out if lo < t < hi]
+
+
+def _speed_minima_bezier(ps, lo, hi):
+    """stationary points of |B'(t)|^2 for a quadratic or cubic Bezier (exactly, also inside the first / last cell of any grid)"""
+    n = len(ps) - 1
+    d = [((q[0] - p[0]) * n, (q[1] - p[1]) * n) for p, q in zip(ps, ps[1:])]
+    if n == 2:
+        # B' = d0 + t (d1 - d0)
+        ex, ey = d[1][0] - d[0][0], d[1][1] - d[0][1]
+        den = ex * ex + ey * ey
+        if den == 0:
+            return []
+        t = -(d[0][0] * ex + d[0][1] * ey) / den
+        return [t] if lo < t < hi else []
+    # cubic: B' = a + b t + c t^2 per axis
+    out = []
+    co = []
+    for k in (0, 1):
+        a_ = d[0][k]
+        b_ = 2 * (d[1][k] - d[0][k])
+        c_ = d[0][k] - 2 * d[1][k] + d[2][k]
+        co.append((a_, b_, c_))
+    # d/dt |B'|^2 / 2 = sum (a + b t + c t^2)(b + 2 c t) = ab + (b^2 + 2ac) t + 3bc t^2 + 2c^2 t^3
+    poly = [0.0, 0.0, 0.0, 0.0]
+    for a_, b_, c_ in co:
+        poly[0] += a_ * b_
+        poly[1] += b_ * b_ + 2 * a_ * c_
+        poly[2] += 3 * b_ * c_
+        poly[3] += 2 * c_ * c_
+    return _poly_roots_in(poly, lo, hi)
+
+
 def length(cv, lo=0.0, hi=1.0):
     """(value, error estimate, capped)"""
     f = speed(cv)
@@ -107,5 +179,12 @@ def length(cv, lo=0.0, hi=1.0):
         n = max(8, int(abs(cv[5]) / (math.pi / 8)) + 1)
         br = [lo + (hi - lo) * i / n for i in range(n + 1)]
     else:
-        br = _minima(lambda t: f(t) ** 2, lo, hi)
+        br = _minima(lambda t: f(t) ** 2, lo, hi) + _speed_minima_bezier(cv[1], lo, hi)
+        # a near-cusp: refine around each stationary point geometrically, the speed behaves like |t - t0| there
+        extra = []
+        for t0 in br:
+            for k in range(1, 12):
+                h = (hi - lo) * 4.0 ** -k
+                extra += [t0 - h, t0 + h]
+        br = br + [t for t in extra if lo < t < hi]
     return integrate(f, lo, hi, breaks=br)
